@@ -17,7 +17,7 @@ use std::cell::RefCell;
 use std::rc::Rc;
 
 /// Kinds of history replayed for every corpus entry.
-pub const KINDS: [&str; 6] = ["enumerate+reask", "solve_all+solve", "two-queries", "parse-and-solve", "timer", "load-file"];
+pub const KINDS: [&str; 7] = ["enumerate+reask", "solve_all+solve", "two-queries", "parse-and-solve", "timer", "load-file", "grow-kb"];
 
 fn features(with_cut: bool) -> Features { Features { cut: with_cut, not: true, output: false, anon: true, alias_heavy: false } }
 
@@ -27,7 +27,7 @@ pub fn decode(choices: &[u16], with_cut: bool) -> Program {
 }
 
 /// Generates `n` corpus entries whose reference search is small (Miri is ~1000x slower).
-pub fn make_corpus(seed: u64, n: usize, with_cut: bool) -> Vec<Value> {
+pub fn make_corpus(seed: u64, n: usize, with_cut: bool, native: bool) -> Vec<Value> {
     let out: RefCell<Vec<Value>> = RefCell::new(vec![]);
     let config = Config { cases: (n * 40) as u32, failure_persistence: None, rng_seed: RngSeed::Fixed(splitmix(seed ^ 0xC24)), ..Config::default() };
     let mut runner = TestRunner::new(config);
@@ -41,10 +41,14 @@ pub fn make_corpus(seed: u64, n: usize, with_cut: bool) -> Vec<Value> {
         let uses_cut = r.stats.cut_exec > 0;
         if with_cut && !uses_cut && o.len() % 3 != 0 { return Ok(()); }
         // native run: expected number of answers (skip programs the engine itself gets wrong: C01's business)
-        let native = match run_program(&p, 20, 1, 5_000_000) { Ok(x) => x, Err(_) => return Ok(()) };
-        if native.answers.len() != r.stats.answers { return Ok(()); }
+        // (without the native run - used when the native run itself crashes - the expected count is the reference's)
+        let answers = if native {
+            let run = match run_program(&p, 20, 1, 5_000_000) { Ok(x) => x, Err(_) => return Ok(()) };
+            if run.answers.len() != r.stats.answers { return Ok(()); }
+            run.answers.len()
+        } else { r.stats.answers };
         let kind = o.len() % KINDS.len();
-        o.push(json!({"choices": v, "cut": with_cut, "kind": KINDS[kind], "answers": native.answers.len(), "steps": r.stats.steps,
+        o.push(json!({"choices": v, "cut": with_cut, "kind": KINDS[kind], "answers": answers, "steps": r.stats.steps,
                       "cut_executed": uses_cut, "text": format!("{}", p)}));
         Ok(())
     });
@@ -87,7 +91,7 @@ pub fn gen_cut_under(s: &mut dyn Src) -> Program {
 }
 
 /// Corpus entries of the class above: choice sequences plus the native answer count.
-pub fn make_cut_under_corpus(seed: u64, n: usize) -> Vec<Value> {
+pub fn make_cut_under_corpus(seed: u64, n: usize, native: bool) -> Vec<Value> {
     let out: RefCell<Vec<Value>> = RefCell::new(vec![]);
     let config = Config { cases: (n * 20) as u32, failure_persistence: None, rng_seed: RngSeed::Fixed(splitmix(seed ^ 0xC24C)), ..Config::default() };
     let mut runner = TestRunner::new(config);
@@ -97,10 +101,10 @@ pub fn make_cut_under_corpus(seed: u64, n: usize) -> Vec<Value> {
         if o.len() >= n { return Ok(()); }
         let mut src = VecSrc::new(&v);
         let p = gen_cut_under(&mut src);
-        let native = match run_program(&p, 20, 1, 5_000_000) { Ok(x) => x, Err(_) => return Ok(()) };
+        let answers: Value = if native { match run_program(&p, 20, 1, 5_000_000) { Ok(x) => json!(x.answers.len()), Err(_) => return Ok(()) } } else { Value::Null };
         let text = format!("{}", p);
         if o.iter().any(|e: &Value| e["text"].as_str() == Some(&text)) { return Ok(()); }
-        o.push(json!({"choices": v, "cut": true, "special": "cut-under-not-time", "kind": "cut-under-not-time", "answers": native.answers.len(),
+        o.push(json!({"choices": v, "cut": true, "special": "cut-under-not-time", "kind": "cut-under-not-time", "answers": answers,
                       "cut_executed": true, "text": text}));
         Ok(())
     });
@@ -186,6 +190,24 @@ pub fn replay_entry(e: &Value) -> Result<String, String> {
                 match r { Ok(n) => { if n != expected { return Err(format!("loaded program found {} answers, expected {}", n, expected)); } did.push_str("; written to a file, loaded with load_kb_from_file and solved"); }
                           Err(m) => return Err(format!("load_kb_from_file rejected the generated file: {}", m)) }
             }
+        }
+        "grow-kb" => {
+            // query, then rules for a dozen new predicates are added (the table behind the knowledge base grows), then the
+            // same query again, then more rules for an existing predicate and the query a third time
+            let r = guarded(u64::MAX, || {
+                suiron::start_query();
+                let mut kb = crate::bridge::build_kb(&p.clauses);
+                let count = |kb: &suiron::KnowledgeBase| { let sn = suiron::make_base_node(Rc::new(query_goal(&p)), kb); let mut n = 0; while suiron::next_solution(Rc::clone(&sn)).is_some() { n += 1; if n > 20 { break; } } n };
+                let n1 = count(&kb);
+                for i in 0..14 { suiron::add_rules(&mut kb, vec![suiron::make_fact(suiron::Unifiable::SComplex(vec![suiron::Unifiable::Atom(format!("zz_added_{}", i)), suiron::Unifiable::SInteger(i)]))]); }
+                let n2 = count(&kb);
+                for i in 0..3 { suiron::add_rules(&mut kb, vec![suiron::make_fact(suiron::Unifiable::SComplex(vec![suiron::Unifiable::Atom("zz_added_0".into()), suiron::Unifiable::SInteger(100 + i)]))]); }
+                let n3 = count(&kb);
+                let _ = suiron::format_kb(&kb);
+                (n1, n2, n3)
+            }).map_err(|f| format!("{:?}", f))?;
+            if r != (expected, expected, expected) { return Err(format!("answers before / after adding unrelated rules: {:?}, expected {}", r, expected)); }
+            did.push_str("; query, 14 new predicates added, query, 3 more facts, query");
         }
         "timer" => {
             // the timer thread fires while a search is running and reading the stop flag
